@@ -204,7 +204,7 @@ func TestC16_Exhaustive(t *testing.T) {
 func TestC16_Rapid(t *testing.T) {
 	rec := evid.New("C16", "TestC16_Rapid", "C16", c16Rule+"; rapid: sets of 1..8 symbols of length 1..4 over {< > = ! - : é 中} in random order, probes over the same alphabet plus x")
 	defer finish(t, rec)
-	alpha := []rune{'<', '>', '=', '!', '-', ':', 'é', '中'}
+	alpha := []rune{'<', '>', '=', '!', '-', ':', 'é', '中', '≠', '≤', '≥', '←', '→', '«'}
 	genStr := func(rt *rapid.T, maxLen int, extra bool, label string) string {
 		n := rapid.IntRange(1, maxLen).Draw(rt, label+"len")
 		var sb strings.Builder
@@ -217,10 +217,28 @@ func TestC16_Rapid(t *testing.T) {
 		}
 		return sb.String()
 	}
+	wide := []rune("!#$%&*+-/:<=>?@^|~\\abcdefgh≠≤≥←→↔中文字«»")
 	runRapid(t, pick(20000, 150000), 16, func(rt *rapid.T) {
 		n := rapid.IntRange(1, 8).Draw(rt, "n")
 		seen := map[string]bool{}
 		var syms []string
+		if rapid.IntRange(0, 9).Draw(rt, "wide") == 0 {
+			// wide fan-out: many symbols that share a prefix and continue with different characters
+			prefix := rapid.SampledFrom([]string{"", "#", "<-", "中"}).Draw(rt, "prefix")
+			k := rapid.IntRange(9, len(wide)).Draw(rt, "fan")
+			perm := rapid.Permutation(wide).Draw(rt, "perm")
+			for _, r := range perm[:k] {
+				s := prefix + string(r)
+				if rapid.IntRange(0, 4).Draw(rt, "deeper") == 0 {
+					s += string(rapid.SampledFrom(wide).Draw(rt, "d2"))
+				}
+				if !seen[s] {
+					seen[s] = true
+					syms = append(syms, s)
+				}
+			}
+			n = 0
+		}
 		for i := 0; i < n; i++ {
 			s := genStr(rt, 4, false, "sym")
 			if rapid.IntRange(0, 2).Draw(rt, "extend") == 0 && len(syms) > 0 {
@@ -233,6 +251,11 @@ func TestC16_Rapid(t *testing.T) {
 			}
 		}
 		var probes []string
+		if len(syms) > 8 {
+			for _, s := range syms {
+				probes = append(probes, s+"x")
+			}
+		}
 		for i := 0; i < 12; i++ {
 			p := genStr(rt, 6, true, "probe")
 			if rapid.Bool().Draw(rt, "fromsym") {
